@@ -30,6 +30,8 @@ TARGETS = {
     "int": [11, 12, 13, 14, 15, 16, 17, 18, 19],
     "str": ["p", "q", "pq", "Q", "r s", "t", "u", "v", "w"],
     "float": [10.5, 11.25, 12.0, 13.75, 14.5, 15.125, 16.0, 17.5, 18.25],
+    # distinct labels that are equal under any tolerance (price points, results of arithmetic, tiny values)
+    "float_close": [2499.99, 2500.0, 2500.01, 0.3, 0.1 + 0.2, 1e-9, 2e-9, 1.0, 1.0000001],
 }
 
 
@@ -104,7 +106,8 @@ def relabel_plan_st(draw, tier):
     for a in labels:
         if a not in uniq:
             uniq.append(a)
-    targets = draw(gen.perm_st(TARGETS[dst]))[:len(uniq)]
+    close = dst == "float" and draw(st.integers(0, 2)) == 0
+    targets = draw(gen.perm_st(TARGETS["float_close" if close else dst]))[:len(uniq)]
     p["mapping"] = [[a, t] for a, t in zip(uniq, targets)]
     p["dst_kind"] = dst
     return p
